@@ -5,7 +5,7 @@ from .core import rule, RuleResult
 from .model import AnalysisError, dotted, norm, walk_own
 from .paths import (Parents, guards_of, flat_guards, np_atom, strip_not, enumerate_paths, handlers_of)
 from .pat import has, find, first, name_of
-from .rules_t import kwonly, str_elts
+from .rules_t import deref_const, kwonly, str_elts
 from .rules_d import fixture_ctx
 from .norm import view, builders
 from .paths import decision_table, isinstance_atom, flatten_guard, cmp_atom
@@ -789,6 +789,12 @@ def k7(ctx, res):
         if p.exit != "return":
             return p.exit
         e = p.exit_node.value
+        if isinstance(e, ast.Name) and e.id != v:
+            from .paths import ret_expr
+            r_ = ret_expr(p)
+            # a result variable of the single-exit style; accumulators (built by a loop) stay names
+            if r_ is not None and not isinstance(r_, (ast.Dict, ast.List)):
+                e = r_
         if norm(e) == v:
             return "unchanged"
         if match(_parse(f"[_parse_literal(MV_x) for MV_x in {v}]"), e) is not None:
@@ -835,7 +841,8 @@ def k7(ctx, res):
     pe = ctx.func("parse_element")
     ok = False
     for n in walk_own(pe.body):
-        if isinstance(n, ast.For) and str_elts(n.iter) is not None and set(str_elts(n.iter)) == {"default", "const", "enum"}:
+        if isinstance(n, ast.For) and str_elts(deref_const(ctx, pe, n.iter)) is not None \
+                and set(str_elts(deref_const(ctx, pe, n.iter))) == {"default", "const", "enum"}:
             k = norm(n.target)
             ok = has(f"if {k} in schema:\n    schema[{k}] = _parse_literal(schema[{k}])", n.body)
     res.check(ok, pe, "for literal_key in ('default', 'const', 'enum'): schema[k] = _parse_literal(schema[k])",
